@@ -68,6 +68,7 @@ fn main() {
         match args.monitor.as_str() {
             "C01" => monitors::c01::replay(&args, &case, &mut rep),
             "C02" => monitors::c02::replay(&args, &case, &mut rep),
+            "C03" => monitors::c03::replay(&args, &case, &mut rep),
             "C05" => monitors::c05::replay(&case, &mut rep),
             "C10" => monitors::c10::replay(&case, &mut rep),
             "C14" => monitors::c14::replay(&case, &mut rep),
@@ -80,6 +81,7 @@ fn main() {
         match args.monitor.as_str() {
             "C01" => monitors::c01::run(&args, &mut rep),
             "C02" => monitors::c02::run(&args, &mut rep),
+            "C03" => monitors::c03::run(&args, &mut rep),
             "C05" => monitors::c05::run(&args, &mut rep),
             "C10" => monitors::c10::run(&args, &mut rep),
             "C14" => monitors::c14::run(&args, &mut rep),
